@@ -26,10 +26,16 @@ def run(ctx):
     ctx.rule("C15.R2", "K8", "codec discipline: latin-1 text never reaches an API that implicitly re-encodes as UTF-8; every wire<->text conversion names latin-1")
     ctx.rule("C15.R3", "K10", "urlsplit (which silently deletes TAB/CR/LF and strips C0 controls) only sees targets in which control characters were rejected")
     ctx.rule("C15.R4", "K11", "the '//' workaround of split_request_uri removes exactly the character it added")
+    ctx.rule("C15.R5", "K10", "(= C01.R4) field values and names reach the environ trimmed of SP/HTAB only: no bare strip()/split() on wire text")
+    ctx.rule("C15.R6", "K3/K5", "(= C08.R4) SCRIPT_NAME is read per request from os.environ or a header literally named SCRIPT_NAME; REMOTE_* from the peer")
     r1(ctx)
     r2(ctx)
     r3(ctx)
     r4(ctx)
+    from . import c01, c08
+    from .common import MultiAlias
+    c01.r4(MultiAlias(ctx, {"C01.R4": "C15.R5"}))
+    c08.r4(MultiAlias(ctx, {"C08.R4": "C15.R6"}))
 
 
 def _dict_literal(f):
